@@ -247,7 +247,11 @@ class RelayWorld:
         if spec.get("drop"):
             tags = [t for t in tags if t[0] != spec["drop"]]
         now = int(self.sim.clock.wall()) + int(spec.get("client_skew", 0))
-        ev = evgen.make(key, kind=spec.get("kind", 22242), created_at=now + int(spec.get("dt", 0)), tags=tags,
+        created = now + int(spec.get("dt", 0))
+        if spec.get("created_raw") is not None:
+            # a JSON text for created_at (NaN, Infinity, null, a float, a string...), NOW = the client's clock
+            created = json.loads(spec["created_raw"].replace("NOW", str(now)))
+        ev = evgen.make(key, kind=spec.get("kind", 22242), created_at=created, tags=tags,
                         content=spec.get("content", ""))
         sw = spec.get("sign_with")
         if sw is not None:
